@@ -181,3 +181,31 @@ type VerifStreamWrapper = internal.VerifStreamWrapper
 func VerifNewStreamWrapper(shard int64, stream proto.OxiaClient_WriteStreamClient) *VerifStreamWrapper {
 	return internal.VerifNewStreamWrapper(shard, stream)
 }
+
+// VerifRangeScan runs the client's RangeScan for one shard (a partition key is given) or over nShards
+// shards on top of a fake executor, and reports what arrives on the result channel and whether the channel
+// gets closed within the timeout.
+func VerifRangeScan(exec VerifExecutor, nShards int, singleShard bool, timeout time.Duration) (res []GetResult, closed bool) {
+	ids := make([]int64, nShards)
+	for i := range ids {
+		ids[i] = int64(i)
+	}
+	c := &clientImpl{shardManager: &verifShards{ids: ids}, executor: exec}
+	var opts []RangeScanOption
+	if singleShard {
+		opts = append(opts, PartitionKey("p"))
+	}
+	ch := c.RangeScan(context.Background(), "a", "z", opts...)
+	deadline := time.After(timeout)
+	for {
+		select {
+		case r, ok := <-ch:
+			if !ok {
+				return res, true
+			}
+			res = append(res, r)
+		case <-deadline:
+			return res, false
+		}
+	}
+}
